@@ -61,6 +61,7 @@ inductive PStep where
   | finish (j : Nat)
   | dec (j : Nat)
   | drop
+  | idleGap            -- time passes and nothing happens: the pool has no timers
 deriving Repr, DecidableEq
 
 def WPc.hasJob : WPc → Bool
@@ -98,6 +99,7 @@ def Pool.enabled (s : PoolSt) : PStep → Bool
   | .finish j => s.workers.any (· == .running j)
   | .dec j => s.workers.any (· == .done j)
   | .drop => s.acc == .accepting
+  | .idleGap => true
 
 /-- one atomic step; a step that is not enabled leaves the state unchanged -/
 def Pool.step (s : PoolSt) (st : PStep) : PoolSt :=
@@ -119,6 +121,7 @@ def Pool.step (s : PoolSt) (st : PStep) : PoolSt :=
                           finished := s.finished ++ [j] }
   | .dec j => { s with workers := replaceFirst (· == .done j) .idle s.workers, busy := s.busy - 1 }
   | .drop => { s with queue := s.queue ++ List.replicate (liveCount s.workers) .terminate, acc := .dropped }
+  | .idleGap => s
 
 def Pool.run (s : PoolSt) (steps : List PStep) : PoolSt := steps.foldl Pool.step s
 
